@@ -2,7 +2,7 @@
    (Gen/Masked_*.v).  For every share value and every random word the value of the output
    shares is the ASCON rounds of the value of the input shares. *)
 From Coq Require Import List Arith Bool Lia. Import ListNotations.
-From AsconV Require Import Sym.Wexpr Sym.Pipe Sym.Kernel Sym.KernelP Sym.VKernel.
+From AsconV Require Import Sym.Wexpr Sym.Pipe Sym.Kernel Sym.KernelP Sym.VKernel Obl.MWordSpec.
 
 Definition dummy_vseg : vseg := {| vs_prog := {| p_body := []; p_outs := [] |}; vs_in := 0; vs_out := 0; vs_rounds := [] |}.
 Definition vchain_of (segs : list vseg) (idx : list nat) : list vseg := map (fun i => nth i segs dummy_vseg) idx.
@@ -39,4 +39,40 @@ Proof.
     rewrite forallb_forall in H1. specialize (H1 i Ii). apply Nat.ltb_lt in H1.
     rewrite forallb_forall in HS. apply HS. now apply nth_In. }
   pose proof (vchain_sound ifs (vchain_of segs idx) ein SC H2 v Wv) as T. rewrite H3 in T. exact T.
+Qed.
+
+(* ---- the value programs of the entry and exit interfaces are the hand-written ones -------------------------------
+   The interfaces (with their value programs) are written by the translator.  Those of the cut points are internal to
+   the proof, but the ENTRY and EXIT value programs are part of the statement above: they say what "the unmasked
+   value of the masked state in memory" is.  [vstd_ok] checks that both are, syntactically, Obl/MWordSpec.state_val
+   (un-rotate share j of each of the five words by 11 j - 32-bit backend: each half by 5 j, then interleave - and
+   XOR), that the entry interface begins with the 5 x 8 max state bytes and the 8 (n-1) preserved bytes (assembly
+   adds the entry registers behind them) and that the exit interface is exactly those bytes.  be, n, max are written
+   by hand in Props/Properties_C10*.v. *)
+Definition vstd_ok (be : mbackend) (n max : nat) (ifs : list viface) (ein eout : nat) : bool :=
+  prog_eqb (vi_val (vif ifs ein)) (state_val be n max) && prog_eqb (vi_val (vif ifs eout)) (state_val be n max) &&
+  nat_list_eqb (firstn (state_bytes n max) (vi_w (vif ifs ein))) (repeat 8 (state_bytes n max)) &&
+  nat_list_eqb (vi_w (vif ifs eout)) (repeat 8 (state_bytes n max)) && Nat.leb 2 n && Nat.leb n max.
+
+Definition masked_perm_std (be : mbackend) (n max : nat) (ifs : list viface) (ein eout : nat) (segs : list vseg)
+                           (chains : list (nat * list nat)) : Prop :=
+  firstn (state_bytes n max) (vi_w (vif ifs ein)) = repeat 8 (state_bytes n max) /\
+  vi_w (vif ifs eout) = repeat 8 (state_bytes n max) /\
+  forall k, k <= 12 -> exists idx, In (k, idx) chains /\
+  forall v, widths_of v = vi_w (vif ifs ein) ->
+  run BoolAlg (vrun_chain (vchain_of segs idx) v) (state_val be n max) =
+  pexec BoolAlg (rounds_pipe KL64 (seq k (12 - k))) (run BoolAlg v (state_val be n max)).
+
+Theorem vbackend_sound_std be n max ifs ein eout segs chains :
+  vbackend_ok ifs ein eout segs chains = true -> vstd_ok be n max ifs ein eout = true ->
+  masked_perm_std be n max ifs ein eout segs chains.
+Proof.
+  intros HB HS. unfold vstd_ok in HS.
+  apply andb_true_iff in HS. destruct HS as [HS _]. apply andb_true_iff in HS. destruct HS as [HS _].
+  apply andb_true_iff in HS. destruct HS as [HS W2]. apply andb_true_iff in HS. destruct HS as [HS W1].
+  apply andb_true_iff in HS. destruct HS as [V1 V2].
+  apply prog_eqb_eq in V1. apply prog_eqb_eq in V2. apply nat_list_eqb_eq in W1. apply nat_list_eqb_eq in W2.
+  split; [exact W1|]. split; [exact W2|].
+  intros k Hk. destruct (vbackend_sound ifs ein eout segs chains HB k Hk) as [idx [I T]].
+  exists idx. split; [exact I|]. intros v Wv. specialize (T v Wv). rewrite V1, V2 in T. exact T.
 Qed.
